@@ -12,7 +12,11 @@ Hand-written here (and tied to the real code by the correspondence of `tools/pro
 * `adaptInterval`        — `_adapt_interval_to_include_root` = adaptInit → while adaptCond/adaptBody(expand_factor = 2) → adaptExit,
 * `bisectionSearch`      — `_bisection_search` = adaptInterval → while bisCond/bisBody from `(lower, upper, 0)` → `(bisExit, adapt_iterations, iterations)`,
 * `searchArgsOk`, `inverterArgsOk` — the `raise ValueError` guards of `_bisection_search` / `AutoregressiveBisectionInverter.__check_init__`,
-* `autoregressiveScan`, `autoregressiveBisection` — `_autoregressive_bisection_search`: `lax.scan` with carry `(y, i)`.
+* `autoregressiveScan`, `autoregressiveBisection` — `_autoregressive_bisection_search`: `lax.scan` with carry `(y, i)`,
+* `inverterCall`         — `AutoregressiveBisectionInverter.__call__`: the search applied to `x ↦ bijection.transform(x, condition) − y`.
+
+The WHOLE functions are also regenerated from the source (`Gen/BisectionGen.lean`, over `Model/BisectWorld.lean`) and proved equal to
+the definitions of this file in `Proofs/BisectionGen.lean`.
 -/
 namespace Model
 open Gen
@@ -83,5 +87,11 @@ def bisectionSolver (lower upper tol : α) (max_iter : Int) (fuel : Nat) (g : α
 def autoregressiveBisection (fn : List α → List α) (lower upper tol : α) (length : Nat)
     (max_iter : Int) (fuel : Nat) : Option (List α) :=
   autoregressiveScan (bisectionSolver lower upper tol max_iter fuel) fn length 0 (arInit lower upper length).1
+
+/-- `AutoregressiveBisectionInverter.__call__(bijection, y, condition)`, `transform = bijection.transform(·, condition)`,
+`n = bijection.shape[0]`, the four fields of the inverter -/
+def inverterCall (transform : List α → List α) (y : List α) (lower upper tol : α) (n : Nat) (max_iter : Int) (fuel : Nat) :
+    Option (List α) :=
+  autoregressiveBisection (fun x => List.zipWith (· - ·) (transform x) y) lower upper tol n max_iter fuel
 
 end Model
